@@ -454,8 +454,8 @@ func runC17(c *Ctx, w *World, r *Report) {
 					ivPhi = p
 				}
 			}
-			if ivPhi == nil || L.K != 1 || len(L.T) != 1 {
-				bad = "split position appended is " + L.String() + ", expected i+1"
+			if ivPhi == nil || len(L.T) != 1 {
+				bad = "split position appended is " + L.String() + ", expected (index of the difference examined)+1"
 				return
 			}
 			// classify by conditions: cand < longest / cand == longest
@@ -489,12 +489,21 @@ func runC17(c *Ctx, w *World, r *Report) {
 				if cand == nil || lp == nil {
 					continue
 				}
+				var candIdx ssa.Value
 				if cx, _, ok := asShiftRight(cand); ok {
-					if cont, _, ok := asElemLoad(cx); !ok || !isCellLoad(cont, "firstDiffs") {
+					cont, ci, ok := asElemLoad(cx)
+					if !ok || !isCellLoad(cont, "firstDiffs") {
 						continue
 					}
-				} else if cont, _, ok := asElemLoad(cand); !ok || !isCellLoad(cont, "firstDiffs") {
+					candIdx = ci
+				} else if cont, ci, ok := asElemLoad(cand); !ok || !isCellLoad(cont, "firstDiffs") {
 					continue // not a comparison of a difference with the running minimum
+				} else {
+					candIdx = ci
+				}
+				// firstDiffs[k] describes the pair keys[k], keys[k+1]: the split goes between them, at k+1
+				if !L.Eq(fa.Lin(candIdx).Add(linConst(1))) {
+					bad = "split position appended is " + L.String() + " for the difference at index " + fa.Lin(candIdx).String() + ", expected that index + 1"
 				}
 				iv, e := candIV(cand)
 				if e != "" {
